@@ -10,7 +10,10 @@ C02 / C03 (coq/Model/Sessions.v) is parameterised by.
   debug_only_prints          every use of self.debug in hotxlfp.Parser guards only traceback.print_exc()
   no_module_level_state      no `global` statement, no cache decorator, no mutable default argument that is written,
                              anywhere in the package (outside the generated ply tables)
-  registry_closed            register_for is only used as a top-level decorator (the registry is filled at import)"""
+  registry_closed            register_for is only used as a top-level decorator (the registry is filled at import)
+  no_parameter_mutation      no function of the package mutates one of its parameters (or a plain alias of one) in place:
+                             no .sort/.append/.extend/... call, no item / slice assignment or deletion, no augmented
+                             assignment on it (ply's production object `p` in the p_* grammar actions excepted)"""
 import ast
 import os
 import sys
@@ -151,6 +154,50 @@ def generate(root):
                     reg_bad.append('%s: register_for used outside a top-level decorator' % fn)
                 if isinstance(n, ast.Attribute) and n.attr == '_registry_' and isinstance(n.ctx, ast.Store) and fn != '__init__.py':
                     reg_bad.append('%s: writes _registry_' % fn)
+    # ---- in-place mutation of parameters (host-supplied values arrive as parameters)
+    MUT = {'sort', 'append', 'extend', 'insert', 'pop', 'remove', 'reverse', 'clear', 'update', 'setdefault', 'add', 'discard', 'popitem'}
+    mut_bad = []
+    for dirpath, dirs, files in os.walk(os.path.join(root, 'hotxlfp')):
+        for fn in files:
+            if not fn.endswith('.py') or 'parsetab' in fn:
+                continue
+            t = ast.parse(open(os.path.join(dirpath, fn)).read())
+            for f in ast.walk(t):
+                if not isinstance(f, ast.FunctionDef):
+                    continue
+                params = {a.arg for a in f.args.args + f.args.kwonlyargs}
+                if f.args.vararg:
+                    params.add(f.args.vararg.arg)
+                if f.args.kwarg:
+                    params.add(f.args.kwarg.arg)
+                params.discard('self')
+                if f.name.startswith('p_') and 'p' in params:
+                    params.discard('p')             # ply's production object: p[0] = ... is how an action returns
+                # plain aliases:  x = param
+                for n in ast.walk(f):
+                    if isinstance(n, ast.Assign) and isinstance(n.value, ast.Name) and n.value.id in params:
+                        for tg in n.targets:
+                            if isinstance(tg, ast.Name):
+                                params.add(tg.id)
+                # a parameter that is rebound to a fresh object before use (x = list(x), x = utils.flatten(x), ...) is no longer
+                # the caller's object from there on; kept conservative: such names are still watched
+                for n in ast.walk(f):
+                    if isinstance(n, ast.Call) and isinstance(n.func, ast.Attribute) and n.func.attr in MUT and \
+                            isinstance(n.func.value, ast.Name) and n.func.value.id in params:
+                        mut_bad.append('%s:%d %s.%s() in %s' % (fn, n.lineno, n.func.value.id, n.func.attr, f.name))
+                    tgs = []
+                    if isinstance(n, ast.Assign):
+                        tgs = n.targets
+                    elif isinstance(n, ast.AugAssign):
+                        tgs = [n.target]
+                        if isinstance(n.target, ast.Name) and n.target.id in params and isinstance(n.op, (ast.Add, ast.Mult)):
+                            pass        # x += ... on a list parameter would extend it in place; numbers are immutable: not decidable here
+                    elif isinstance(n, ast.Delete):
+                        tgs = n.targets
+                    for x in tgs:
+                        if isinstance(x, ast.Subscript) and isinstance(x.value, ast.Name) and x.value.id in params:
+                            mut_bad.append('%s:%d %s[...] written in %s' % (fn, n.lineno, x.value.id, f.name))
+    fact('no_parameter_mutation', not mut_bad, '; '.join(mut_bad[:5]))
     fact('no_module_level_state', not bad, '; '.join(bad[:5]))
     fact('registry_closed', not reg_bad, '; '.join(reg_bad[:5]))
     out = ['(* GENERATED by tools/gen/sessions.py from the source of the tree under test. *)',
